@@ -1,6 +1,7 @@
 package rules
 
 import (
+	"fmt"
 	"go/token"
 	"go/types"
 	"strings"
@@ -278,5 +279,96 @@ func c19(c *core.Ctx) {
 	})
 	c.Run("lastSig-check-then-act", func() { c19LastSigCheckThenAct(c) })
 
+	c.Clause("C19.8", "a published term record is never written: the term list hands out *TermRecord pointers which readers (deputy queries of the confirm, fetch and RPC threads) use after they have released the manager's lock, so a record is filled only while it is still private to the function that allocated it; replacing a term means publishing a new record under the lock")
+	c.Run("term-records-immutable", func() { c19TermRecordsImmutable(c) })
+
 	c.NotDecidedf("linearizability of concurrent requests; validity of emitted signatures as values; races inside goleveldb / metrics; accesses the must-lockset approximation cannot attribute are reported, not assumed safe; lock identity is per type, not per instance")
+}
+
+// c19TermRecordsImmutable: C19.8. Every store to a field of deputynode.TermRecord, and every element store into its node list, is on a record allocated in the same function.
+func c19TermRecordsImmutable(c *core.Ctx) {
+	const dn = "chain/deputynode"
+	st := c.Struct(dn + ".TermRecord")
+	isField := map[*types.Var]bool{}
+	for i := 0; i < st.NumFields(); i++ {
+		isField[st.Field(i)] = true
+	}
+	var private func(v ssa.Value, depth int) bool
+	private = func(v ssa.Value, depth int) bool {
+		if depth > 4 {
+			return false
+		}
+		switch x := v.(type) {
+		case *ssa.Alloc:
+			return true
+		case *ssa.FieldAddr:
+			return private(x.X, depth+1)
+		case *ssa.UnOp:
+			if al, ok := x.X.(*ssa.Alloc); ok && x.Op == token.MUL && al.Referrers() != nil {
+				n := 0
+				for _, r := range *al.Referrers() {
+					if s, ok := r.(*ssa.Store); ok && s.Addr == al {
+						if !private(s.Val, depth+1) {
+							return false
+						}
+						n++
+					}
+				}
+				return n > 0
+			}
+		}
+		return false
+	}
+	n := 0
+	for _, fn := range c.SrcFuncs {
+		if isTestHelper(c, fn) {
+			continue
+		}
+		k := 0
+		for _, b := range fn.Blocks {
+			for _, in := range b.Instrs {
+				s, ok := in.(*ssa.Store)
+				if !ok {
+					continue
+				}
+				var base ssa.Value
+				var what string
+				if fa, ok := s.Addr.(*ssa.FieldAddr); ok && isField[core.FieldOf(fa)] {
+					base, what = fa.X, "field "+core.FieldOf(fa).Name()
+				} else if ia, ok := s.Addr.(*ssa.IndexAddr); ok {
+					if ld, ok := ia.X.(*ssa.UnOp); ok && ld.Op == token.MUL {
+						if fa, ok := ld.X.(*ssa.FieldAddr); ok && isField[core.FieldOf(fa)] {
+							base, what = fa.X, "an element of "+core.FieldOf(fa).Name()
+						}
+					}
+				}
+				if base == nil {
+					continue
+				}
+				n++
+				if len(fn.Params) > 0 && base == ssa.Value(fn.Params[0]) && (fn.Name() == "UnmarshalJSON" || fn.Name() == "DecodeRLP") {
+					// a decoder fills the record it is handed; whose record that is, is the caller's obligation
+					ok := true
+					for _, g := range c.SrcFuncs {
+						if isTestHelper(c, g) {
+							continue
+						}
+						for _, gb := range g.Blocks {
+							for _, gi := range gb.Instrs {
+								if call, isCall := gi.(ssa.CallInstruction); isCall && call.Common().StaticCallee() == fn && len(call.Common().Args) > 0 && !private(call.Common().Args[0], 0) {
+									ok = false
+								}
+							}
+						}
+					}
+					c.Check(fmt.Sprintf("term-record-write@%s#%d", shortFn(fn), k), "ownership", ok, s.Pos(), "%s decodes into its receiver; every static caller outside the tests must hand it a record it has just allocated", shortFn(fn))
+					k++
+					continue
+				}
+				c.Check(fmt.Sprintf("term-record-write@%s#%d", shortFn(fn), k), "ownership", private(base, 0), s.Pos(), "%s writes %s of a TermRecord; readers use published records without the manager's lock, so only a record allocated in this function may be written", shortFn(fn), what)
+				k++
+			}
+		}
+	}
+	c.Floor("term-record-writes", n, 2)
 }
